@@ -244,7 +244,12 @@ fn mlat_of(id: u32, gnss: Option<i64>, t_rx_ns: u64) -> u64 {
             let (sec, nanos) = (t / 1_000_000_000, t % 1_000_000_000);
             (sec << 30) | (nanos & !ID_MASK & 0x3FFF_FFFF) | (id as u64 & ID_MASK)
         }
-        None => (0x3_FFFFu64 << 30) | (id as u64 & ID_MASK),
+        // a free-running counter: the upper bits are whatever the uptime made
+        // them (the receiver index selects a remarkable prefix)
+        None => {
+            let hi: u64 = [0x3_FFFF, 0x3_FC00, 0x0_0000, 0x2_AAAA, 0x3_FC03][(id as usize / 7) % 5];
+            (hi << 30) | (((t_rx_ns / 83) << ID_BITS) & 0x3FFF_FFFF & !ID_MASK) | (id as u64 & ID_MASK)
+        }
     }
 }
 
